@@ -380,7 +380,8 @@ fn budget(prop: &str, tier: &str) -> Budget {
         "C16" => 2500,
         _ => 4000,
     };
-    let runs = env_runs.unwrap_or(if tier == "thorough" { quick * 30 } else { quick });
+    let second = std::env::var("CCSIM_EVIDENCE_TAG").is_ok();
+    let runs = env_runs.unwrap_or(if second { quick * 6 } else if tier == "thorough" { quick * 30 } else { quick });
     Budget {
         runs,
         watchdog: Duration::from_secs(if prop == "C14" { 20 } else { 60 }),
@@ -632,7 +633,27 @@ pub fn check(prop: &str, tier: &str, extra: &[String]) -> i32 {
             "sampling: a clean batch is evidence, not proof"
         ]
     });
-    let path = evidence_dir.join(format!("{prop}.json"));
+    let tag = std::env::var("CCSIM_EVIDENCE_TAG").ok();
+    let mut evidence = evidence;
+    let path = match &tag {
+        Some(t) => evidence_dir.join(format!("{prop}.{t}.json")),
+        None => {
+            // a thorough run embeds the result of the second feature configuration
+            let p2 = evidence_dir.join(format!("{prop}.cfg-b.json"));
+            if let Ok(t) = std::fs::read_to_string(&p2) {
+                if let Ok(v) = serde_json::from_str::<serde_json::Value>(&t) {
+                    evidence["coverage"]["second_configuration"] = json!({
+                        "features": v["coverage"]["features"],
+                        "evaluations": v["coverage"]["evaluations"],
+                        "distinct_nontrivial": v["coverage"]["distinct_nontrivial"],
+                        "violations": v["violations"],
+                        "wall_s": v["wall_s"],
+                    });
+                }
+            }
+            evidence_dir.join(format!("{prop}.json"))
+        }
+    };
     if let Err(e) = std::fs::write(&path, serde_json::to_string_pretty(&evidence).unwrap()) {
         eprintln!("cannot write evidence: {e}");
         return 2;
